@@ -76,6 +76,16 @@ func (s *Statement) Evict(reclaimeeTask *pod_info.PodInfo, message string,
 		return fmt.Errorf("node doesn't exist in sesssion: <%s>", reclaimeeTask.NodeName)
 	}
 
+	if currentTask, found := job.GetAllPodsMap()[reclaimeeTask.UID]; found &&
+		currentTask.Status == pod_status.Releasing && currentTask.IsVirtualStatus {
+		// The task is already evicted in this session (solvers evict a recorded victim again when it is also a
+		// potential victim of the tested node, possibly through a copy with a stale status). Evicting it a
+		// second time would release its queue share twice and emit two evictions on commit.
+		log.InfraLogger.V(6).Infof("Task <%v/%v> is already evicted in session <%v>", reclaimeeTask.Namespace,
+			reclaimeeTask.Name, s.sessionID)
+		return nil
+	}
+
 	previousStatus := reclaimeeTask.Status
 	previousGpuGroup := reclaimeeTask.GPUGroups
 	previousIsVirtualStatus := reclaimeeTask.IsVirtualStatus
